@@ -134,7 +134,8 @@ def update_domain_and_kwargs_from_args(symbolic_cls: Type, *args, **kwargs):
                 raise ValueError(f"First non-keyword-argument to {symbolic_cls.__name__} in symbolic mode should be"
                                  f" a domain using `From()`.")
         else:
-            arg_name = init_args[i+1] # to skip `self`
+            # skip `self`, the domain is not a constructor argument so it does not take the place of one.
+            arg_name = init_args[i + 1] if domain is None else init_args[i]
             kwargs[arg_name] = arg
     return domain, kwargs
 
